@@ -117,6 +117,34 @@ theorem fallback_never_revives (own glob : Cache) (now now' : Nat) (sid : Str) (
   rw [h1]
   exact fallback_dead_not_resumed own _ now' sid w' n' ra' (Or.inl ho) (Or.inl (get_invalidate_self _ sid))
 
+/-- **client_explicit_needs_key** (client side of "a session without a key is never resumed", the
+    explicit-SessionID path; did not hold of the code as found — F-C06-client-explicit-keyless): a
+    client handshake that names a cached session by id and reports it resumed found a live entry
+    carrying a key under an AES-GCM protocol name, and reports that key. -/
+theorem client_explicit_needs_key (c : Cache) (now : Nat) (sid : Str) (ans : ServerAnswer) (ra : Bool)
+    (c' : Cache) (sid' : Str) (key : Option Nat) (user : String) (auth : Bool)
+    (h : clientById c now sid ans ra = (c', .resumed sid' key user auth)) :
+    key.isSome = true ∧ ∃ e, c.get sid = some e ∧ e.key = key ∧ (e.crypto = "AES" ∨ e.crypto = "AESGCM") := by
+  unfold clientById Cache.lookupNonExpired at h
+  cases hg : c.get sid with
+  | none => simp [hg] at h
+  | some e =>
+    simp only [hg] at h
+    by_cases hx : e.expired now = true
+    · simp [hx] at h
+    · simp only [hx, Bool.false_eq_true, if_false] at h
+      by_cases hg2 : (!(e.key.isSome && (e.crypto == "AES" || e.crypto == "AESGCM")) || (ra && !e.authenticated)) = true
+      · rw [if_pos hg2] at h; simp at h
+      · rw [if_neg hg2] at h
+        have hk : (e.key.isSome && (e.crypto == "AES" || e.crypto == "AESGCM")) = true := by
+          cases hk : (e.key.isSome && (e.crypto == "AES" || e.crypto == "AESGCM")) with
+          | true => rfl
+          | false => exfalso; apply hg2; simp [hk]
+        simp only [Bool.and_eq_true, Bool.or_eq_true, beq_iff_eq] at hk
+        cases ans <;> simp at h
+        obtain ⟨_, _, hkey, _, _⟩ := h
+        exact ⟨by rw [← hkey]; exact hk.1, e, rfl, hkey, hk.2⟩
+
 private def liveEntry : Entry :=
   { id := ['s'], addr := [], key := some 1, crypto := "AES", user := "u", authenticated := true,
     validCommands := [], expiration := none, lease := 0, tag := [] }
